@@ -9,5 +9,5 @@ trap 'git -C /repo checkout -- . 2>/dev/null' EXIT
 git -C /repo apply "$P" || { echo "patch does not apply"; exit 3; }
 mkdir -p /tmp/verif-mut/evidence /tmp/verif-mut/replays
 cp "$ROOT/known_findings.json" /tmp/verif-mut/
-( cd "$ROOT" && VERIF_OUT=/tmp/verif-mut timeout "$TMO" ./check "$ID" --tier "$TIER" 2>&1 | grep -E "^(VIOLATION|violation:|signature:|KNOWN|HARNESS|$ID tier)" | cut -c1-260 | tail -8 )
+( cd "$ROOT" && VERIF_OUT=/tmp/verif-mut timeout "$TMO" ./check "$ID" --tier "$TIER" 2>&1 | grep -E "^(VIOLATION|violation:|signature:|KNOWN|HARNESS|$ID tier)" | cut -c1-260 | tail -40 )
 echo "exit=${PIPESTATUS[0]}"
